@@ -5,7 +5,7 @@
 From Coq Require Import NArith ZArith List Bool.
 Require Import Board Move GameOver PtnMove Playtak Tps TotalFacts PtnFile PtnFileTotalThm Tei TeiTotal.
 Require Bot BotLine BotLineFacts.
-Require WeightsJson WeightsJsonFacts Generated.Consts.
+Require WeightsJson WeightsJsonFacts WeightsJsonRt Generated.Consts.
 From Coq Require Permutation.
 
 Theorem C13_parse_move_total : forall s : list N, PtnMove.parse_move s <> PtnMove.Panic.
@@ -105,13 +105,16 @@ Proof. exact (fun names maxf H pairs pairs' ws ws' P => conj (WeightsJsonFacts.u
                 (WeightsJsonFacts.unmarshal_class_order names maxf H pairs pairs' ws ws' P)). Qed.
 Print Assumptions C13_weights_class_order_free.
 
-(* the table is the inverse of the stringer on 0 .. MaxFeature-1 and has exactly MaxFeature entries; marshal then unmarshal
-   (into zeroed slots) gives back every weight set of DefaultWeights (by computation over the regenerated constants; the round
-   trip for ARBITRARY weight sets is not proved). *)
-Theorem C13_weights_tables_roundtrip_partial :
-  WeightsJsonFacts.tables_agree = true /\ forallb WeightsJsonFacts.rt_row Generated.Consts.gen_DefaultWeights = true.
-Proof. exact (conj WeightsJsonFacts.weights_tables_agree WeightsJsonFacts.weights_roundtrip_defaults). Qed.
-Print Assumptions C13_weights_tables_roundtrip_partial.
+(* the name table is the inverse of the stringer on 0 .. MaxFeature-1 and both tables have exactly MaxFeature entries (by
+   computation over the regenerated constants); hence marshal then unmarshal into zeroed slots gives back EVERY weight set
+   (any MaxFeature int64 values): the loop of MarshalJSON followed by the loop of UnmarshalJSON is the identity on the slots. *)
+Theorem C13_weights_roundtrip :
+  WeightsJsonFacts.tables_agree = true /\
+  forall ws : list Z, length ws = Generated.Consts.gen_MaxFeature ->
+    WeightsJson.unmarshal_post Generated.Consts.gen_featureNames (N.of_nat Generated.Consts.gen_MaxFeature)
+      (WeightsJson.marshal_pre Generated.Consts.gen_featureStrings ws) (WeightsJson.zeros (N.of_nat Generated.Consts.gen_MaxFeature)) = PtnMove.Ok ws.
+Proof. exact (conj WeightsJsonFacts.weights_tables_agree WeightsJsonRt.weights_roundtrip). Qed.
+Print Assumptions C13_weights_roundtrip.
 
 (* Not a theorem: encoding/json itself (the decoding of the text into map[string]int64, the encoding of the map) is trusted
    to be total; the J family is decided by the crash/hang oracle, and by the model's class whenever the text is a JSON object
